@@ -691,7 +691,7 @@ class Interp(object):
                 nv = base.replace(dmust=(base.dmust or frozenset()) | {key},
                                   dmay=None if base.dmay is None else base.dmay | {key}, dvals=dv)
             else:
-                nv = base.replace(dmay=None)
+                nv = base.replace(dmay=None, elem=join_av(base.elem, v) if base.elem is not None else v)
             self._rebind_container(fr, target.value, nv, st, how)
             return
         if base.kind == K_OBJ:
